@@ -12,7 +12,7 @@ import (
 func tkAnyParams() v1.Params {
 	d := v1.DefaultParams()
 	return v1.Params{TokenTaxRate: verifDecAny("tax"), MintTokenFeeRatio: verifDecAny("mintRatio"),
-		IssueTokenBaseFee: sdk.Coin{Denom: d.IssueTokenBaseFee.Denom, Amount: verifIntAny("baseFee")}, EnableErc20: true}
+		IssueTokenBaseFee: sdk.Coin{Denom: verifDenomAny("baseFeeDenom", d.IssueTokenBaseFee.Denom), Amount: verifIntAny("baseFee")}, EnableErc20: true}
 }
 
 // C16 token: authority only; rejected sets never stored.
